@@ -152,7 +152,7 @@ PROPS = {
                 claim="Tag<->SerdeTag conversions proved by Kani for every non-fs tag kind over full value ranges; an arbitrary tag object (all optional fields symbolic) never panics and yields its own kind or the explicit Unknown tag",
                 trusted="CBMC's bit-precise model of the compiled MIR (real code incl. the unsafe new_unchecked calls, no stubs)",
                 technique="Kani loop-free proof harnesses over full-domain symbolic inputs on the real conversion functions (plain harnesses: contract instrumentation is 20x slower on these heap-carrying types)"),
-    "C01": dict(units=["worker", "sources", "actionloop", "fswatch"], level="proof", assumptions=WORKER_ASSUME,
+    "C01": dict(units=["worker", "sources", "actionloop", "fswatch", "maintask"], level="proof", assumptions=WORKER_ASSUME,
                 claim="throttle_collect proved by Verus: the returned batch is exactly the accepted sub-sequence (urgent, empty or filter-accepted) of the messages it received, never empty; loop invariant over all event streams, verdict sequences and timings",
                 trusted="stand-ins in prelude/worker_env.rs (async_priority_channel receiver, tokio timeout, Changeable throttle, arbitrary filterer, error channel); frame lemmas applied in verified wrappers (units/worker/spec.rs)"),
     "C02": dict(units=["worker", "actionloop", "cfgwatch"], level="proof", assumptions=WORKER_ASSUME + ["wall-clock accuracy of tokio timers is not decided; 'arrive within the window' = received by the worker before the return"],
@@ -186,7 +186,7 @@ PROPS = {
                              "filter files' I/O (read_filter_file) not decided"],
                 claim="tail of dirs::ignores, head of WatchexecFilterer::new and head of FilteringArgs::normalise proved by Verus with all six flags symbolic: explicit --ignore-file entries always reach the filterer; each flag removes exactly the discovered sources it names; --ignore-nothing = the five flags",
                 trusted="stand-ins in prelude/clifilter_env.rs (Vec/iterator idioms, abstract paths)"),
-    "C13": dict(units=["fswatch", "cfgwatch", "kbd"], level="proof",
+    "C13": dict(units=["fswatch", "cfgwatch", "kbd", "maintask"], level="proof",
                 assumptions=["the notify watcher is a map path -> recursion mode: watch() inserts/overwrites, unwatch() removes, either may fail arbitrarily leaving the map unchanged; Watcher::create yields an empty watcher of the requested kind (real notify back ends, recursive sub-watches, inotify auto-removal on delete: not decided; replayed on the real library by replay/lib scenarios)",
                              "a configured path set names each path once (distinct_paths): with the same path configured in both modes no registration can equal the configuration",
                              "the configuration read by one iteration (pathset.get twice, file_watcher.get) does not change during it; a change made meanwhile is applied by the next iteration: ConfigWatched::next and Config::signal_change are under contract in unit cfgwatch (logical-clock model of tokio Notify + the change counter: the watcher sleeps only on a Notified enabled before it read the counter, and only if the counter equals what it already reported; signal_change counts before it wakes; each setter signals once (structural)). Changeable: that reads clone the value out of a temporary guard and that a handler is called on the clone with no lock held is decided on the token stream (structural obligations; Verus does not model Drop), which is what makes reconfiguration from inside a handler deadlock-free and leaves the invocation in progress on the old handler. tokio Notify itself and RwLock fairness are NOT decided",
